@@ -610,13 +610,45 @@ def gen_loop(rng: random.Random, tier: str):
     for sc in gen_exhaustive(tier):
         for kind in KINDS:
             yield mk(kind, sc, [0, 1, 2, 3, 4], 40)
-    # 3. random programs
+    # 3. crowded queues (7..9 tasks)
+    for i in range(60 if tier == "quick" else 800):
+        sc, mains, nev = crowd_program(rng)
+        for kind in KINDS:
+            yield mk(kind, sc, mains, rng.choice([40, 70]), nev)
+    # 4. random programs
     nrand = 200 if tier == "quick" else 3000
     for i in range(nrand):
         sc, mains, nev = random_program(rng, big=(tier != "quick" and i % 4 == 0))
         fuel = rng.choice([25, 40, 60])
         for kind in KINDS:
             yield mk(kind, sc, mains, fuel, nev)
+
+
+def crowd_program(rng):
+    """7..9 tasks that keep pulling one another out of the MIDDLE of the ready queue: on the
+    priority loop such removals hit inner and leaf slots of the heap (a removal that repairs the
+    heap only in one direction goes unnoticed with fewer than ~7 entries)"""
+    ntasks = rng.randint(7, 9)
+    scripts = []
+    for s in range(3):
+        ops = []
+        for _ in range(rng.randint(3, 7)):
+            r = rng.random()
+            t = rng.randrange(ntasks)
+            if r < 0.35:
+                ops.append(["sleep"])
+            elif r < 0.65:
+                ops.append(["reinsert", t, rng.choice([0, 0, 1, 2, 5])])
+            elif r < 0.85:
+                ops.append(["switch", t, rng.choice([None, 0, 1, 3])])
+            elif r < 0.93:
+                ops.append(["find", t, True])
+            else:
+                ops.append(["call_pos", rng.choice([0, 1, 3]), rng.randrange(20)])
+        ops.append(["sleep"])
+        scripts.append(ops)
+    mains = [rng.randrange(3) for _ in range(ntasks)]
+    return scripts, mains, 1
 
 
 def random_program(rng, big=False):
